@@ -19,11 +19,12 @@ while loading, or while saving a restored collection, is not.
 import os
 import shutil
 
+from vf import lib_C02_histories as H
 from vf import lib_C02_sessions as L
 
 ID = "C02"
 LEVEL = "exploration"
-BUDGET_S = {"quick": 26.0, "thorough": 150.0}
+BUDGET_S = {"quick": 32.0, "thorough": 150.0}
 RULE = ("cases are blocks of seeded session recipes: 'gen' (random composition, data saved by value), 'files' (datasets "
         "read from generated CSV/FITS/HDF5 files, saved by reference = LoadLog path), 'leaf'/'link'/'join' (one named "
         "state/ROI/link/join class forced into an otherwise random session, so every class is exercised at least twice "
@@ -54,7 +55,7 @@ ANCHORS = ["glue.core.state:GlueSerializer.id", "glue.core.state:GlueSerializer.
            "glue.core.state:_load_style", "glue.core.state:_save_component_link", "glue.core.state:_load_component_link",
            "glue.core.data_factories.helpers:LoadLog.__gluestate__", "glue.core.data_factories.helpers:LoadLog.__setgluestate__"]
 
-BLOCK = 8
+BLOCK = 4
 N_GEN = {"quick": 3200, "thorough": 40000}
 N_FILES = {"quick": 640, "thorough": 6000}
 N_PER_CLASS = {"quick": 2, "thorough": 12}       # blocks of BLOCK sessions per forced class
@@ -70,23 +71,33 @@ UNREACHABLE_SAVERS = {"Session", "CallbackList", "RegionData", "ExtendedComponen
                       "CoordinateComponentLink", "Roi", "set"}
 
 
+MODES = ["save_in_delay_block", "fault_then_save", "fault_then_load", "interleaved_sessions"]
+
+
 def cases(tier, seed):
     yield ["registry"]
     forced = []
-    for i in range(N_PROBE[tier]):
-        for name in L.PROBES:
-            forced.append(["probe", name, i])
-    for i in range(N_PER_CLASS[tier]):
-        for kind in FORCED_LEAVES:
-            forced.append(["leaf", kind, i])
-        for kind in FORCED_LINKS:
-            forced.append(["link", kind, i])
-        for shape in L.JOIN_SHAPES:
-            forced.append(["join", shape, i])
-        for kind in ("cat_roi", "category", "cat_2d", "cat_multirange"):
-            forced.append(["cats", kind, i])
-        for k in range(3):
-            forced.append(["history", "remove_last", 3 * i + k])
+    for i in range(max(N_PROBE[tier], N_PER_CLASS[tier])):
+        # one pass = every probe, every forced class, every history and every mode once; passes come one after the
+        # other, so that a time-truncated run has seen each class at least once
+        if i < N_PROBE[tier]:
+            for name in L.PROBES:
+                forced.append(["probe", name, i])
+        if i < N_PER_CLASS[tier]:
+            for kind in FORCED_LEAVES:
+                forced.append(["leaf", kind, i])
+            for kind in FORCED_LINKS:
+                forced.append(["link", kind, i])
+            for shape in L.JOIN_SHAPES:
+                forced.append(["join", shape, i])
+            for kind in ("cat_roi", "category", "cat_2d", "cat_multirange"):
+                forced.append(["cats", kind, i])
+            for name in ["remove_last"] + H.HISTORIES:
+                forced.append(["history", name, i])
+            for name in MODES:
+                forced.append(["mode", name, i])
+            forced.append(["big", i])
+            forced.append(["zero", i])
     for (r, p) in ROI_PRE:
         forced.append(["roi", r, p, 0])
     ng, nf = N_GEN[tier] // BLOCK, N_FILES[tier] // BLOCK
@@ -96,13 +107,14 @@ def cases(tier, seed):
         rnd.append(["gen", i])
         if i % step == 0 and i // step < nf:
             rnd.append(["files", i // step])
-    # interleave the forced-class cases with the random ones so that a time-truncated run still has both
+    # three forced cases for every random one until the forced list is used up
     k = 0
-    for i, c in enumerate(rnd):
+    for c in rnd:
         yield c
-        if k < len(forced):
-            yield forced[k]
-            k += 1
+        for _ in range(3):
+            if k < len(forced):
+                yield forced[k]
+                k += 1
     for c in forced[k:]:
         yield c
 
@@ -194,6 +206,8 @@ def signature_for(diff, gen, ses, before_dc, after_dc):
         sig["slice_state_on_later_dataset"] = True
     if desc.get("removed") is not None:
         sig["dataset_removed_before_save"] = True
+    if str(desc.get("history", "")).startswith("change_values"):
+        sig["values_changed_before_save"] = True
     if what in ("component_units", "foreign_attribute", "subset_mask") and \
             any(d.get("file") in ("csv", "hdf5") and d["units"] for d in desc["data"]):
         sig["units_set_on_file_backed_column"] = True
@@ -213,6 +227,8 @@ def exc_signature(stage, exc, gen, desc=None):
             sig["derived_component_first_overall"] = True
         if desc.get("removed") is not None:
             sig["dataset_removed_before_save"] = True
+        if desc.get("floodfill_dataset_left_collection"):
+            sig["floodfill_dataset_left_collection"] = True
         if any(d.get("file") in ("csv", "hdf5") and d["units"] for d in desc["data"]):
             sig["units_set_on_file_backed_column"] = True
     if hasattr(exc, "_vf_type"):
@@ -254,6 +270,8 @@ def tally_ingredients(ctx, desc, prefix):
             seen.add("categorical_order:%s" % (d.get("custom_categories") or "default"))
         if d.get("order_mode"):
             seen.add("component_order:" + d["order_mode"])
+        for v in d.get("variants", []):
+            seen.add("variant:" + v)
         for t in d.get("style_extremes", []):
             seen.add("data_style:" + t)
         if d.get("file"):
@@ -276,21 +294,76 @@ def tally_ingredients(ctx, desc, prefix):
                     seen.add("roi_kind:" + lf["roi_kind"])
             if lf.get("pretransform") not in (None, "none"):
                 seen.add("pretransform:" + lf["pretransform"])
-            if lf.get("leaf_kind", "").startswith("inequality"):
+            if lf.get("params"):
+                seen.add("leaf_params:%s:%s" % (lf.get("leaf_kind"), lf["params"]))
+            if lf.get("bounds"):
+                seen.add("leaf_bounds:" + lf["bounds"])
+            if lf.get("leaf_kind", "").startswith("inequality") and "op" in lf:
                 seen.add("inequality_op:" + lf["op"])
                 seen.add("inequality_form:" + lf["form"])
     if desc.get("collide"):
         seen.add("label_collisions")
     if desc.get("history"):
         seen.add("history:" + desc["history"])
+    if desc.get("mode"):
+        seen.add("mode:" + desc["mode"])
+    for d in desc["data"]:
+        for k, plain in d["meta"]:
+            if k.startswith("m_np_"):
+                seen.add("meta_kind:numpy_scalar")
+            if k in ("m_deep", "m_listofdict", "m_tuple_str", "m_arr_in_list", "m_nested", "m_mixed"):
+                seen.add("meta_kind:nested_container")
+            if k in ("m_zero", "m_fzero", "m_negzero", "m_false", "m_emptylist", "m_emptydict", "m_emptytuple", "m_none", "m_empty"):
+                seen.add("meta_kind:falsy")
+            if k in ("st__key", "__main__", "d0", "key with space", "", "7"):
+                seen.add("meta_kind:awkward_key")
     for s in seen:
         ctx.count("%s:%s" % (prefix, s))
     return seen
 
 
-def run_session(ctx, ses, tag):
+def flag_floodfill_outsiders(ses):
+    """trait: a flood-fill selection whose dataset is not a member of the collection (any more)."""
+    from glue.core.subset import FloodFillSubsetState
+
+    def walk(st):
+        if isinstance(st, FloodFillSubsetState):
+            yield st
+        for c in (L.state_children(st) or []):
+            for x in walk(c):
+                yield x
+    members = list(ses.dc)
+    for g in ses.dc.subset_groups:
+        for ff in walk(g.subset_state):
+            if not any(ff.data is m for m in members):
+                ses.desc["floodfill_dataset_left_collection"] = True
+
+
+def provoke_faults(ctx, dc):
+    """Calls that raise, on the very objects that are saved afterwards; what they leave behind must not matter."""
+    from glue.core.state import GlueSerializer
+    n = 0
+    for attempt in ("save_unserialisable", "mask_bad_view", "bad_component", "bad_link"):
+        try:
+            if attempt == "save_unserialisable":
+                GlueSerializer({"dc": dc, "bad": L.Unserialisable()}, include_data=True).dumps()
+            elif attempt == "mask_bad_view" and len(dc) and dc[0].subsets:
+                dc[0].subsets[0].to_mask(view=(slice(None),) * (dc[0].ndim + 2))
+            elif attempt == "bad_component" and len(dc):
+                dc[0].add_component([1, 2, 3, 4, 5, 6, 7, 8, 9, 10, 11], "wrong_shape")
+            elif attempt == "bad_link" and len(dc):
+                dc.add_link("not a link")
+        except Exception:
+            n += 1
+    ctx.count("faults_provoked_before_save", n)
+
+
+def run_session(ctx, ses, tag, mode=None):
     desc = ses.desc
     dc = ses.dc
+    flag_floodfill_outsiders(ses)
+    if mode == "fault_then_save":
+        provoke_faults(ctx, dc)
     ctx.count("sessions_generated")
     ctx.count("sessions_generated:" + tag)
     tally_ingredients(ctx, desc, "generated_with")
@@ -300,7 +373,16 @@ def run_session(ctx, ses, tag):
     obs0 = L.observe(dc)
     # ---- save the original: may refuse loudly
     try:
-        s1 = L.save(dc, include_data=ses.include_data, trace=trace)
+        if mode == "save_in_delay_block":
+            # saving while the hub holds messages back and the link manager is not updating
+            with dc.hub.delay_callbacks():
+                with dc.delay_link_manager_update():
+                    if len(dc) and dc[0].subsets:
+                        dc[0].subsets[0].style.color = "#010203"      # a pending message
+                        obs0 = L.observe(dc)
+                    s1 = L.save(dc, include_data=ses.include_data, trace=trace)
+        else:
+            s1 = L.save(dc, include_data=ses.include_data, trace=trace)
     except Exception as exc:
         ctx.count("save_refused")
         ctx.count("save_refused:%s:%s" % (getattr(exc, "_vf_class", "at_json_encoding"), type(exc).__name__))
@@ -325,6 +407,26 @@ def run_session(ctx, ses, tag):
                           {"desc": desc})
     # ---- first restore
     ltrace = {}
+    if mode == "fault_then_load":
+        # loads that raise (truncated file, unknown type, record of a class that cannot be built) before the real one
+        import json
+        n = 0
+        for bad in (s1[:len(s1) // 2], s1.replace('"glue.core.data.Data"', '"glue.core.data.NoSuchClass"'),
+                    json.dumps({"__main__": {"_type": "glue.core.subset.RangeSubsetState", "lo": 1}})):
+            try:
+                L.load(bad)
+            except Exception:
+                n += 1
+        ctx.count("faults_provoked_before_load", n)
+    if mode == "interleaved_sessions":
+        # a second, different session is saved and loaded between this session's save and its load (nothing kept
+        # per process - name registries, caches keyed by label or by id() - may leak from one into the other)
+        other = L.build_session(ctx.rng, {"n_data": 2, "label_collisions": False}, None)
+        try:
+            L.load(L.save(other.dc))
+            ctx.count("interleaved_other_session_tripped")
+        except Exception:
+            ctx.count("interleaved_other_session_failed")
     try:
         dc1 = L.load(s1, trace=ltrace)
     except Exception as exc:
@@ -432,7 +534,13 @@ def session_opts(case):
     if kind == "cats":
         return {"want_leaf": case[1], "cat_mode": "all_present"}
     if kind == "history":
-        return {"history": case[1]}
+        return {"history": "remove_last"} if case[1] == "remove_last" else dict(H.HISTORY_OPTS[case[1]])
+    if kind == "mode":
+        return {"n_data": 2} if case[1] == "interleaved_sessions" else {}
+    if kind == "big":
+        return {"big": True, "n_data": 1 + case[1] % 2}
+    if kind == "zero":
+        return {"zero_size": True}
     raise ValueError(case)
 
 
@@ -444,14 +552,39 @@ def run_case(ctx, case):
     work = None
     if opts.get("files"):
         work = os.path.join(os.environ.get("VERIF_WORK", "/verif/.work"), "C02_%d" % os.getpid())
-    n = BLOCK if case[0] in ("gen", "files") else (4 if case[0] != "roi" else 2)
+    # forced-class cases: one session in the first pass (so that even a starved run sees every class), three later
+    n = BLOCK if case[0] in ("gen", "files") else (1 if case[0] in ("roi", "big") or case[-1] == 0 else 3)
     for b in range(n):
         if work:
             shutil.rmtree(work, ignore_errors=True)
             os.makedirs(work, exist_ok=True)
         try:
-            ses = L.build_session(ctx.rng, opts, work)
-            run_session(ctx, ses, case[0] if case[0] != "probe" else "probe:" + case[1])
+            if case[0] == "history" and case[1] == "empty_collection":
+                ses = H.empty_session()
+            else:
+                ses = L.build_session(ctx.rng, opts, work)
+            mode = None
+            if case[0] == "history" and case[1] != "remove_last":
+                try:
+                    tag = H.apply_history(ctx.rng, ses, case[1])
+                    tries = 0
+                    while tag is None and tries < 5:      # preconditions not met by this session: build another
+                        tries += 1
+                        ctx.count("history_not_applicable:" + case[1])
+                        ses = L.build_session(ctx.rng, opts, work)
+                        tag = H.apply_history(ctx.rng, ses, case[1])
+                except Exception as exc:
+                    # the history itself failed inside glue (undo/redo, merge ... are other properties' subjects)
+                    ctx.count("history_raised:%s:%s" % (case[1], type(exc).__name__))
+                    continue
+                if tag is None:
+                    ctx.count("history_not_applicable:" + case[1])
+                    continue
+                ses.desc["history"] = tag
+            if case[0] == "mode":
+                mode = case[1]
+                ses.desc["mode"] = mode
+            run_session(ctx, ses, case[0] if case[0] != "probe" else "probe:" + case[1], mode=mode)
         finally:
             if work:
                 shutil.rmtree(work, ignore_errors=True)
@@ -498,34 +631,52 @@ def floors(counters, tier):
     out = []
     gen = sum(v for k, v in counters.items() if k.startswith("sessions_generated:") and not k.startswith("sessions_generated:probe"))
     cmp_ = sum(v for k, v in counters.items() if k.startswith("sessions_compared:") and not k.startswith("sessions_compared:probe"))
-    if gen < 250:
-        out.append("fewer than 250 non-probe sessions generated (%d)" % gen)
+    if gen < 150:
+        out.append("fewer than 150 non-probe sessions generated (%d)" % gen)
     elif cmp_ < 0.8 * gen:
         out.append("only %d of %d generated non-probe sessions reached the comparison (< 80 %%)" % (cmp_, gen))
-    if counters.get("sessions_compared:files", 0) < 20:
-        out.append("fewer than 20 by-reference (file-backed) sessions compared")
-    if counters.get("second_generation_compared", 0) < 150:
-        out.append("fewer than 150 second-generation restores compared")
-    if counters.get("subset_masks_nonempty", 0) < 250:
-        out.append("fewer than 250 non-empty subset masks compared")
-    if counters.get("foreign_attributes_readable", 0) < 150:
-        out.append("fewer than 150 readable foreign (linked) attributes compared")
-    if counters.get("subset_masks_on_foreign_dataset_with_value", 0) < 40:
-        out.append("fewer than 40 masks evaluated through a link or join on another dataset")
+    if counters.get("sessions_compared:files", 0) < 8:
+        out.append("fewer than 8 by-reference (file-backed) sessions compared")
+    if counters.get("second_generation_compared", 0) < 100:
+        out.append("fewer than 100 second-generation restores compared")
+    if counters.get("subset_masks_nonempty", 0) < 150:
+        out.append("fewer than 150 non-empty subset masks compared")
+    if counters.get("foreign_attributes_readable", 0) < 100:
+        out.append("fewer than 100 readable foreign (linked) attributes compared")
+    if counters.get("subset_masks_on_foreign_dataset_with_value", 0) < 25:
+        out.append("fewer than 25 masks evaluated through a link or join on another dataset")
     need = ["leaf:%s:top" % k for k in FORCED_LEAVES] + \
-           ["leaf:%s:nested" % k for k in FORCED_LEAVES if k not in ("slice", "pixel")] + \
+           ["leaf:%s:nested" % k for k in FORCED_LEAVES if k not in ("slice", "pixel", "slice_special")] + \
            ["roi_kind:" + r for r in L.ROI_KINDS] + ["pretransform:" + p for p in set(L.PRE_KINDS) if p != "none"] + \
            ["link:" + k for k in FORCED_LINKS] + ["join:" + j for j in L.JOIN_SHAPES] + \
            ["derived:" + k for k in L.DERIVED_FAMILY] + ["column:categorical", "column:datetime", "column:units"] + \
            ["coords:" + str(c) for c in set(L.COORD_KINDS)] + ["file:csv", "file:fits", "file:hdf5", "label_collisions"] + \
            ["component_order:" + m for m in set(L.ORDER_MODES)] + \
            ["categorical_order:" + m for m in ("default", "all_present", "with_absent")] + \
-           ["history:remove_last:join_on_key", "history:remove_last:JoinLink"] + \
            ["%s_style:%s:%s" % (w, a, e) for w in ("data", "group") for a in ("alpha", "linewidth", "markersize")
             for e in ("falsy", "max")]
+    need += ["variant:" + v for v in ("rows>=100", "many_columns", "zero_size")]
+    # variants that come with the random composition: floors on the families, not on every member
+    for fam, least in (("variant:dtype:", 10), ("variant:layout:", 10), ("variant:scale:", 10), ("variant:unit_length_axis", 1),
+                       ("variant:duplicate_component_label", 1)):
+        got = sum(v for k, v in counters.items() if k.startswith("generated_with:" + fam))
+        if got < least:
+            out.append("fewer than %d sessions with a %s* column variant (%d)" % (least, fam, got))
+    for fam in ("variant:dtype:", "variant:layout:", "variant:scale:"):
+        kinds = sum(1 for k in counters if k.startswith("generated_with:" + fam))
+        if kinds < 3:
+            out.append("fewer than 3 different %s* variants generated" % fam)
+    need += ["meta_kind:" + k for k in ("numpy_scalar", "nested_container", "falsy", "awkward_key")]
+    need += ["leaf_bounds:close_pair", "coords:scaled"] + ["mode:" + m for m in MODES]
     for n in need:
-        if counters.get("generated_with:" + n, 0) < 2:
-            out.append("workload class %s generated fewer than twice" % n)
+        if counters.get("generated_with:" + n, 0) < 1:
+            out.append("workload class %s never generated" % n)
+    for h in ["remove_last"] + H.HISTORIES:
+        if not any(k.startswith("tripped_with:history:" + h) or k.startswith("generated_with:history:" + h) for k in counters):
+            out.append("history %s never generated" % h)
+    for lk in L.SPECIAL_LEAVES:
+        if counters.get("generated_with:leaf:%s:top" % lk, 0) < 1:
+            out.append("special leaf recipe %s never generated" % lk)
     for k in counters:
         if k.startswith("registered_saver:"):
             name = k.split(":", 1)[1]
@@ -533,8 +684,8 @@ def floors(counters, tier):
                 continue
             if counters.get("saver_used:" + name, 0) == 0:
                 out.append("registered saver %s never observed in use" % name)
-    if counters.get("history_masks_over_removed_dataset_with_value", 0) < 8:
-        out.append("fewer than 8 masks of a selection over a removed dataset's attribute evaluated through its key join")
+    if counters.get("history_masks_over_removed_dataset_with_value", 0) < 1:
+        out.append("fewer than 1 masks of a selection over a removed dataset's attribute evaluated through its key join")
     if not any(k.startswith("registered_saver:") for k in counters):
         out.append("the saver registry was not enumerated")
     return out
